@@ -25,7 +25,7 @@ func init() {
 	register(&run.Check{
 		ID:    "C14",
 		Level: "model_checking",
-		Rule: "(a) no panic: every byte string <=4 (thorough 5) over B, every fragment sequence <=2 (thorough 3) over F, every sequence of 3-4 tokens over a 23-token token-loop alphabet (one token of every class the loop's bookkeeping distinguishes), and every sequence <=2 over the attribute / URL (<=3) / style-declaration alphabets of the other checks in their contexts, through all four entry points, against four policies: an 'everything on' policy (every default CSS handler globally, a rewriter that dereferences its argument, data URIs, data attributes, element patterns, every link / crossorigin / sandbox option), the same with URL parsing switched off again, a rewriter-only policy, and UGC; data: URIs of <=3 fragments in img.src as well; for every default CSS handler every prefix / suffix of every accepted token and every prefix of every function-notation token after an accepted beginning (no panic, within the step budget); " +
+		Rule: "(a) no panic: every byte string <=4 (thorough 5) over B, every fragment sequence <=2 (thorough 3) over F, every sequence of 3-4 tokens over a 23-token token-loop alphabet (one token of every class the loop's bookkeeping distinguishes), and every sequence <=2 over the attribute / URL (<=3) / style-declaration alphabets of the other checks in their contexts, through all four entry points (the streaming one into a bytes.Buffer and into a destination without WriteString), against four policies: an 'everything on' policy (every default CSS handler globally, a rewriter that dereferences its argument, data URIs, data attributes, element patterns, every link / crossorigin / sandbox option), the same with URL parsing switched off again, a rewriter-only policy, and UGC; data: URIs of <=3 fragments in img.src as well; for every default CSS handler every prefix / suffix of every accepted token and every prefix of every function-notation token after an accepted beginning (no panic, within the step budget); " +
 			"(b) promptness by step-bounded execution: the overlay counts one step per statement of package bluemonday and per function entry / loop iteration of package css; for every default CSS handler x up to 12 tokens of its own vocabulary x separator {' ', ',', '/', ' / '} x terminator {none, a rejected token} x size n in {1,2,4,8,16,24,32,48}: handler(n-fold value) must finish within K*(len+16)^3 steps; " +
 			"likewise 22 size-parameterised HTML families through Sanitize (nested dropped / skipped / attribute-less elements, n attributes, n rel tokens, n style declarations, n CSS escapes, n-token shorthand values for 14 shorthand properties, n data- prefixes, n bare < and &, ...) for n up to 256. Exceeding the budget aborts the call (sentinel panic) and is the violation; sizes are visited in increasing order. No wall-clock oracle. " +
 			"non-trivial = distinct (family, size) executions with n >= 4.",
@@ -128,8 +128,15 @@ func allEntryPoints(p *bluemonday.Policy, in []byte) (pm string) {
 	p.SanitizeReader(bytes.NewReader(in))
 	var buf bytes.Buffer
 	p.SanitizeReaderToWriter(bytes.NewReader(in), &buf)
+	// and into a destination that has no WriteString method (the library then wraps it)
+	p.SanitizeReaderToWriter(bytes.NewReader(in), writeOnly{&buf})
 	return ""
 }
+
+// writeOnly hides every method of its destination except Write.
+type writeOnly struct{ w *bytes.Buffer }
+
+func (w writeOnly) Write(p []byte) (int, error) { return w.w.Write(p) }
 
 type htmlFamily struct {
 	name string
